@@ -1,6 +1,7 @@
 import OnetVerif.Model.C10
 import OnetVerif.Props.C09
 import OnetVerif.Shapes
+import OnetVerif.Proofs.C09Pause
 /-! Property C10 — closing a server is clean and safe under concurrent traffic.
 Only property theorems, witnesses, non-vacuity examples and the lemmas they need. -/
 namespace C10
@@ -1913,6 +1914,194 @@ example :
   decide
 
 example : (lnRun {} [.stopCall, .stopLock 0, .stopFinish 0, .listen]).loop = .returned := by decide
+
+
+/-! ### round 7 — `Stop` and the pause gate (`Model/C09Pause.lean`, lemmas in `Proofs/C09Pause.lean`) -/
+
+/-- **liveness at the gate**: once `Unpause` has run — `Router.Stop` begins with it — every loop that stands at
+the gate can return (its wake-up is enabled), whatever happened before; so `Stop`'s `wg.Wait` never waits for
+a loop that is stuck there. -/
+theorem c10_stop_is_not_held_at_the_pause_gate (acts : List C09.GateAct) (i : Nat) (ch : Nat) :
+    let s := C09.gateRun true (C09.gateRun true {} acts) [.unpause]
+    s.loops[i]? = some (.wait ch) → (C09.gateStep true s (.wake i)).isSome = true := by
+  intro s hl
+  have hinv : C09.GateInv s := C09.gate_inv_run _ (C09.gate_inv_run {} C09.gate_inv_init acts) [.unpause]
+  have hp : s.paused = none := by
+    simp only [s, C09.gateRun, C09.gateStep]
+    split <;> rename_i hh
+    · split at hh
+      · simp only [Option.some.injEq] at hh; subst hh; rfl
+      · rename_i hn; simp only [Option.some.injEq] at hh; subst hh; exact hn
+    · split at hh <;> cases hh
+  have := (hinv _ (C09.gate_getElem?_mem hl)).1 ch rfl
+  rcases this with hc | hq
+  · have hm : ch ∈ s.closedCh := List.contains_iff_mem.mp hc
+    simp [C09.gateStep, hl, hm]
+  · rw [hp] at hq; cases hq
+
+/-- witness for the code before the repair: loop 0 is woken by the first `Unpause`; a second `Pause` makes
+channel 1 and loop 1 reads it; then loop 0 writes `r.paused = nil`.  Loop 1 now waits on a channel that is not
+closed and that no `Unpause` (no `Stop`) will close: its wake-up stays disabled after one more `Unpause`.
+Probed against the real router: `notes/probes/onet_c09_pause_gate_stop_hang_probe_test.go.txt`. -/
+theorem c10_woken_loop_must_not_reset_the_gate :
+    let s := C09.gateRun false {} [.launch, .launch, .pause, .received 0, .unpause, .wake 0, .pause, .received 1,
+      .reset 0, .unpause]
+    s.loops[1]? = some (.wait 1) ∧ C09.GatePc.stranded s (.wait 1) = true ∧ C09.gateStep false s (.wake 1) = none ∧
+    -- the same schedule on the repaired code (`reset` is not enabled there): loop 1 can return
+    (let t := C09.gateRun true {} [.launch, .launch, .pause, .received 0, .unpause, .wake 0, .pause, .received 1,
+      .reset 0, .unpause]
+     (C09.gateStep true t (.wake 1)).isSome = true) := by
+  decide
+
+
+
+/-! ### round 7 — several `Close` calls at the same time (`Model/C10Closers.lean`) -/
+
+/-- how far a `Close` call has come says what is released already -/
+def CcGood (s : Cc) (pc : CcPc) : Prop :=
+  (pc ≠ .start → s.closedFlag = true) ∧ (pc.rank ≤ 3 → s.deliveries = 0) ∧ (pc.rank ≤ 2 → s.wsBound = false) ∧
+  (pc.rank ≤ 1 → s.ovClosed = true) ∧ (pc.rank = 0 → s.dbOpen = false)
+
+theorem cc_getElem?_mem {l : List CcPc} {i : Nat} {a : CcPc} (h : l[i]? = some a) : a ∈ l := by
+  obtain ⟨hlt, he⟩ := List.getElem?_eq_some_iff.mp h
+  exact he ▸ List.getElem_mem hlt
+
+theorem cc_inv_step {s s' : Cc} {a : CcAct} (h : ∀ pc ∈ s.closers, CcGood s pc)
+    (hs : ccStep false s a = some s') : ∀ pc ∈ s'.closers, CcGood s' pc := by
+  cases a with
+  | deliver =>
+    simp only [ccStep] at hs
+    split at hs
+    · cases hs
+    · rename_i hc
+      simp only [Option.some.injEq] at hs; subst hs
+      intro pc hpc
+      have hg := h pc hpc
+      have hst : pc = .start := by
+        cases pc <;> first | rfl | (exfalso; exact hc (hg.1 (by simp)))
+      subst hst
+      simp [CcGood, CcPc.rank]
+  | finish =>
+    simp only [ccStep] at hs
+    split at hs
+    · rename_i hd
+      simp only [Option.some.injEq] at hs; subst hs
+      intro pc hpc
+      have hg := h pc hpc
+      refine ⟨hg.1, fun hr => ?_, hg.2.2.1, hg.2.2.2.1, hg.2.2.2.2⟩
+      have := hg.2.1 hr
+      omega
+    · cases hs
+  | closeCall =>
+    simp only [ccStep, Option.some.injEq] at hs; subst hs
+    intro pc hpc
+    simp only [List.mem_append, List.mem_singleton] at hpc
+    rcases hpc with hpc | rfl
+    · exact h pc hpc
+    · simp [CcGood, CcPc.rank]
+  | go j =>
+    simp only [ccStep] at hs
+    split at hs
+    · rename_i hl
+      simp only [Bool.false_eq_true, false_and, if_false, Option.some.injEq] at hs; subst hs
+      intro pc hpc
+      rcases List.mem_or_eq_of_mem_set hpc with hpc | rfl
+      · have hg := h pc hpc
+        exact ⟨fun _ => rfl, hg.2.1, hg.2.2.1, hg.2.2.2.1, hg.2.2.2.2⟩
+      · simp [CcGood, CcPc.rank]
+    · rename_i hl
+      have ho := h _ (cc_getElem?_mem hl)
+      split at hs
+      · rename_i hd
+        simp only [Option.some.injEq] at hs; subst hs
+        intro pc hpc
+        rcases List.mem_or_eq_of_mem_set hpc with hpc | rfl
+        · exact h pc hpc
+        · exact ⟨fun _ => ho.1 (by simp), fun _ => hd, by simp [CcPc.rank], by simp [CcPc.rank], by simp [CcPc.rank]⟩
+      · cases hs
+    · rename_i hl
+      have ho := h _ (cc_getElem?_mem hl)
+      simp only [Option.some.injEq] at hs; subst hs
+      intro pc hpc
+      rcases List.mem_or_eq_of_mem_set hpc with hpc | rfl
+      · have hg := h pc hpc
+        exact ⟨hg.1, hg.2.1, fun _ => rfl, hg.2.2.2.1, hg.2.2.2.2⟩
+      · exact ⟨fun _ => ho.1 (by simp), fun _ => ho.2.1 (by simp [CcPc.rank]), fun _ => rfl, by simp [CcPc.rank], by simp [CcPc.rank]⟩
+    · rename_i hl
+      have ho := h _ (cc_getElem?_mem hl)
+      simp only [Option.some.injEq] at hs; subst hs
+      intro pc hpc
+      rcases List.mem_or_eq_of_mem_set hpc with hpc | rfl
+      · have hg := h pc hpc
+        exact ⟨hg.1, hg.2.1, hg.2.2.1, fun _ => rfl, hg.2.2.2.2⟩
+      · exact ⟨fun _ => ho.1 (by simp), fun _ => ho.2.1 (by simp [CcPc.rank]), fun _ => ho.2.2.1 (by simp [CcPc.rank]), fun _ => rfl, by simp [CcPc.rank]⟩
+    · rename_i hl
+      have ho := h _ (cc_getElem?_mem hl)
+      simp only [Option.some.injEq] at hs; subst hs
+      intro pc hpc
+      rcases List.mem_or_eq_of_mem_set hpc with hpc | rfl
+      · have hg := h pc hpc
+        exact ⟨hg.1, hg.2.1, hg.2.2.1, hg.2.2.2.1, fun _ => rfl⟩
+      · exact ⟨fun _ => ho.1 (by simp), fun _ => ho.2.1 (by simp [CcPc.rank]), fun _ => ho.2.2.1 (by simp [CcPc.rank]),
+          fun _ => ho.2.2.2.1 (by simp [CcPc.rank]), fun _ => rfl⟩
+    · cases hs
+
+theorem cc_inv_run (s : Cc) (h : ∀ pc ∈ s.closers, CcGood s pc) (acts : List CcAct) :
+    ∀ pc ∈ (ccRun false s acts).closers, CcGood (ccRun false s acts) pc := by
+  induction acts generalizing s with
+  | nil => exact h
+  | cons a as ih =>
+    simp only [ccRun]
+    split
+    · rename_i s' hs; exact ih s' (cc_inv_step h hs)
+    · exact ih s h
+
+/-- **when ANY `Close` call returns, the server is closed**: for every number of overlapping `Close` calls, every
+number of deliveries in flight and every interleaving — a call that has returned has seen the router closed, every
+delivery over, the client-side port released, the overlay closed and the database closed.  Falsified by any way out of
+`Close` that does not run (or wait for) the whole sequence — e.g. a return on `Router.Closed()`, which only says that
+some `Close` has begun (`c10_closed_flag_is_not_closed`). -/
+theorem c10_any_close_return_means_closed (acts : List CcAct) :
+    CcPc.returned ∈ (ccRun false {} acts).closers → (ccRun false {} acts).released = true := by
+  intro hm
+  have hg := cc_inv_run {} (by intro pc hpc; cases hpc) acts _ hm
+  have h1 := hg.1 (by simp)
+  have h2 := hg.2.1 (by simp [CcPc.rank])
+  have h3 := hg.2.2.1 (by simp [CcPc.rank])
+  have h4 := hg.2.2.2.1 (by simp [CcPc.rank])
+  have h5 := hg.2.2.2.2 (by simp [CcPc.rank])
+  simp [Cc.released, h1, h2, h3, h4, h5]
+
+/-- **liveness**: once no delivery is in flight every `Close` call that has not returned can take its next step, and
+each step brings it closer to its return; while deliveries are in flight a processor's return is enabled.  So
+overlapping `Close` calls all return as soon as the processors do (they do not wait for each other). -/
+theorem c10_overlapping_closes_progress (s : Cc) (j : Nat) (pc : CcPc) (hl : s.closers[j]? = some pc)
+    (hr : pc ≠ .returned) :
+    (0 < s.deliveries → (ccStep false s .finish).isSome = true) ∧
+    (s.deliveries = 0 → ∃ s' pc', ccStep false s (.go j) = some s' ∧ s'.closers[j]? = some pc' ∧ pc'.rank < pc.rank) := by
+  obtain ⟨hlt, he⟩ := List.getElem?_eq_some_iff.mp hl
+  refine ⟨fun hd => by simp [ccStep, hd], fun hd => ?_⟩
+  cases pc with
+  | returned => exact absurd rfl hr
+  | start => simp [ccStep, he, hd, hlt, CcPc.rank]
+  | waiting => simp [ccStep, he, hd, hlt, CcPc.rank]
+  | ws => simp [ccStep, he, hd, hlt, CcPc.rank]
+  | ov => simp [ccStep, he, hd, hlt, CcPc.rank]
+  | db => simp [ccStep, he, hd, hlt, CcPc.rank]
+
+/-- witness for the variant that returns when the router's closed flag is set (seeded change C10r7-B): a delivery is
+in flight, the first `Close` waits in `Router.Stop`, the second returns at once — with the delivery running, the
+client-side port bound and the database open.  On the code as it is the second call waits as well. -/
+theorem c10_closed_flag_is_not_closed :
+    let s := ccRun true {} [.deliver, .closeCall, .closeCall, .go 0, .go 1]
+    s.closers = [.waiting, .returned] ∧ s.released = false ∧ s.deliveries = 1 ∧ s.wsBound = true ∧ s.dbOpen = true ∧
+    (ccRun false {} [.deliver, .closeCall, .closeCall, .go 0, .go 1]).closers = [.waiting, .waiting] := by
+  decide
+
+/-- non-vacuity: two overlapping calls that both return, after the delivery is over -/
+example :
+    let s := ccRun false {} [.deliver, .closeCall, .go 0, .closeCall, .go 1, .finish, .go 1, .go 0, .go 1, .go 1, .go 0, .go 1, .go 0, .go 0]
+    s.closers = [.returned, .returned] ∧ s.released = true := by decide
 
 
 /-! ### the code regions the model stands for
